@@ -206,7 +206,7 @@ func init() {
 		Rule: "seeded incidence structures (<=11 keys incl. a hash-colliding pair, <=5 labels, <=3 names + embedded default index, 1..3 caches per name over 1..4 backends of all kinds, repeated labelling, repeated/unknown labels in the argument list); " +
 			"each scenario is rebuilt and run once fault-free and once per delete position p with an injected deleter failure at p (complete fault enumeration), followed by recovery and retry; " +
 			"plus concurrent AddLabels/AddCache/InvalidateByLabels workloads; distinct_nontrivial = distinct (scenario seed, fault position) runs in which at least one labelled entry existed",
-		Required: []string{"runs.nofault", "runs.fault", "fault.error_returned", "retry.checked", "concurrent.runs", "removed.entries", "hostile_label.followups"},
+		Required: []string{"runs.nofault", "runs.fault", "fault.error_returned", "retry.checked", "concurrent.runs", "removed.entries", "hostile_label.followups", "bulk.invalidations"},
 		Assumptions: []string{"labels consumed by a successful invalidation are not re-applied (workloads never rewrite a key after its label was consumed)"},
 	})
 }
@@ -227,6 +227,48 @@ func runC15(b *Batch) {
 			continue
 		}
 		c15Concurrent(b, n+i)
+	}
+	nb := b.Pick(16, 160) / b.NBatches
+	if nb == 0 {
+		nb = 1
+	}
+	for i := 0; i < nb; i++ {
+		if !b.Skip(n + nc + i) {
+			c15Bulk(b, n+nc+i)
+		}
+	}
+}
+
+// c15Bulk: one label carrying thousands of keys (sizes around and between multiples of 1000), a second label sharing some
+// of them; invalidation removes every labelled entry, the count is the number of entries removed, nothing else is touched.
+func c15Bulk(b *Batch, idx int) {
+	rng := rand.New(rand.NewSource(b.CaseSeed(idx)))
+	kind := backendKinds[rng.Intn(3)]
+	be := newBackend(kind, cache.Config{})
+	index := cache.NewInvalidationIndex()
+	index.AddCache("bulk", be.(cache.Deleter))
+	n := []int{1001, 1999, 2500, 4096, 1000, 3001, 10007}[rng.Intn(7)] + rng.Intn(3)
+	for i := 0; i < n; i++ {
+		k := []byte(fmt.Sprintf("lk-%d", i))
+		_ = be.Write(bg, k, "v")
+		index.AddLabels("bulk", k, "big")
+		if i%10 == 0 {
+			index.AddLabels("bulk", k, "tenth")
+		}
+	}
+	bystanders := 100 + rng.Intn(100)
+	for i := 0; i < bystanders; i++ {
+		_ = be.Write(bg, []byte(fmt.Sprintf("plain-%d", i)), "v")
+	}
+	labels := [][]string{{"big"}, {"big", "tenth"}, {"tenth", "big"}}[rng.Intn(3)]
+	cnt, err := index.InvalidateByLabels(bg, labels...)
+	b.R.Eval()
+	b.R.Count("bulk.invalidations", 1)
+	b.R.Count("bulk.labelled_keys", int64(n))
+	b.R.Nontrivial(fmt.Sprintf("bulk/%s/n=%d/labels=%d", kind, n, len(labels)))
+	if err != nil || cnt != n || be.Len() != bystanders {
+		b.R.Violate(b, idx, "C15:bulk:incomplete", fmt.Sprintf("%s: label with %d keys: InvalidateByLabels returned (%d,%v), %d labelled entries are still stored (Len=%d with %d unlabelled entries)", kind, n, cnt, err, be.Len()-bystanders, be.Len(), bystanders),
+			map[string]interface{}{"backend": kind, "keys": n, "labels": labels})
 	}
 }
 
